@@ -88,6 +88,14 @@ func (s *badgerStore) CheckAndSaveNonce(ID string, nonce int64) error {
 		}
 		simhook.Yield("badger.CheckAndSaveNonce.read")
 
+		// The saved nonce of this ID may just have expired: that happens
+		// only after the nonces it guards have become too old, so look at
+		// the clock again now that the lookup is done (the check above was
+		// made before the transaction began, possibly a while ago).
+		if s.nonceExpire > 0 && nonce <= time.Now().Add(-s.nonceExpire).UnixNano() {
+			return store.ErrInvalidNonce
+		}
+
 		if s.nonceExpire > 0 {
 			// The saved nonce must outlive every request it can still
 			// invalidate: until nonceExpire after the nonce's own timestamp
